@@ -370,6 +370,7 @@ type devMod struct {
 	fresh     bool
 	yields    int
 	justActivated bool
+	scratch       []byte
 }
 
 func (d *devMod) Transition(active bool) error {
@@ -404,9 +405,16 @@ func (d *devMod) runOps(ops []DevOp, respond func(string) io.Writer, yield func(
 			if n == 0 && i < parts-1 {
 				continue
 			}
-			if _, err := wr.Write(rest[:n]); err != nil {
+			// like io.Copy, the module writes from a buffer of its own that it reuses at once:
+			// a Writer must not retain the slice it was given
+			buf := append(d.scratch[:0], rest[:n]...)
+			if _, err := wr.Write(buf); err != nil {
 				d.w.problem("device module %s: write of %q failed: %v", d.name, name, err)
 			}
+			for i := range buf {
+				buf[i] = ^buf[i]
+			}
+			d.scratch = buf
 			rest = rest[n:]
 			d.w.spin()
 		}
